@@ -290,11 +290,13 @@ func NewRuleGroup() RuleGroup {
 type transformationKey struct {
 	// TODO(anuraaga): This is a big hack to support performance on TinyGo. TinyGo
 	// cannot efficiently compute a hashcode for a struct if it has embedded non-fixed
-	// size fields, for example string as we'd prefer to use here. A pointer is usable,
-	// and it works for us since we know that the arg key string is populated once per
-	// transaction phase and we would never have different string pointers with the same
-	// content, or more problematically same pointer for different content, as the strings
-	// will be alive throughout the phase.
+	// size fields, for example string as we'd prefer to use here. A pointer is usable:
+	// the entry is identified by the data pointer and the length of the value being
+	// transformed. Strings are immutable and the pointer held here keeps the value alive,
+	// so the same (pointer, length) can never denote different content while the entry
+	// exists. The key or the position of the value in the result list must not be used:
+	// all the values of one argument name share the key string, and positions change with
+	// map iteration order and with per-rule exclusions.
 	argKey            *byte
 	argIndex          int
 	argVariable       variables.RuleVariable
